@@ -334,7 +334,12 @@ func generate(cfg *hx.Config) []hx.Case {
 			tree = g.leaf(leafTypes[(k/6)%len(leafTypes)])
 		}
 		d := domainOf(tree)
-		in := []string{"CONC", tree.String(), "P"}
+		ckind := "CONC" // root = martianhttp.Modifier
+		if (k/6)%2 == 1 {
+			ckind = "CONCB" // bare root: handlers and traffic wired to the group / filter / verifier itself
+		}
+		cfg.Count("concurrent_root=" + ckind)
+		in := []string{ckind, tree.String(), "P"}
 		for i := r.Range(0, 6); i > 0; i-- {
 			in = append(in, randMessage(r, d, randKind(r), 1).token())
 		}
@@ -360,12 +365,70 @@ func generate(cfg *hx.Config) []hx.Case {
 				in = append(in, "Q")
 			}
 		}
+		if withReset && k%2 == 0 {
+			// a second control goroutine: resets racing with queries as well as with traffic
+			in = append(in, "K")
+			for i := r.Range(2, 10); i > 0; i-- {
+				if r.Bool() {
+					in = append(in, "R")
+				} else {
+					in = append(in, "Q")
+				}
+			}
+			cfg.Count("concurrent=two_control_goroutines")
+		}
 		add("conc", in)
 		cfg.Count("gen=concurrent")
 		if withReset {
 			cfg.Count("concurrent=with_reset")
 		} else {
 			cfg.Count("concurrent=query_only")
+		}
+	}
+	// 4. an operation racing with one message parked between the verifiers of a group
+	gateShapes := []string{
+		"Gn(%s,W,%s2)",
+		"Gn(%s,Gn(W),%s2,%s3)",
+		"F90%cn(Gn(%s,W,%s2);Gn(%s3,W,%s4))",
+		"Gn(F90%cn(%s;%s2),W,F91%cn(%s3;%s4))",
+		"Gn(Gn(%s,%s2),F90%cn(W;W),Gn(%s3),%s4)",
+	}
+	nGateReps := 1
+	if cfg.Thorough() {
+		nGateReps = 6
+	}
+	for _, shape := range gateShapes {
+		for _, lt := range leafTypes {
+			for oi, op := range []string{"R", "Q"} {
+				for _, root := range []string{"GATEB", "GATEM"} {
+					for rep := 0; rep < nGateReps; rep++ {
+						r := rng.Fork()
+						tok := instantiate(shape, lt, filterTypes[r.Intn(len(filterTypes))])
+						tree, err := parseTree(tok)
+						if err != nil {
+							panic(tok + ": " + err.Error())
+						}
+						d := domainOf(tree)
+						kind := byte('q')
+						if lt == 's' || (lt == 'h' && r.Bool()) {
+							kind = 's'
+						}
+						o := op
+						if r.Chance(1, 3) { // direct call of the same kind instead of the handler
+							o = op + string(kind)
+						}
+						in := []string{root, tok}
+						for i := r.Range(0, 3); i > 0; i-- {
+							in = append(in, randMessage(r, d, kind, 1).token())
+						}
+						m := randMessage(r, d, kind, 0)
+						in = append(in, m.token(), o)
+						add("gate", in)
+						cfg.Count("gen=gate")
+						_ = oi
+					}
+				}
+			}
 		}
 	}
 	return cases
